@@ -402,6 +402,38 @@ def expected_callback(form, rets, calls):
     return None
 
 
+REPEAT_FORMS = [
+    # (expression, expected argument vectors of the calls of h in order)
+    ("(function(){ var b = h.bind(null, 1); b(2); b(3); return b(); })()", [[1, 2], [1, 3], [1]]),
+    ("(function(){ var b = h.bind(null); b(2, 3); b(); return b(4); })()", [[2, 3], [], [4]]),
+    ("(function(){ var b = h.bind(null, 1, 2); var c = b.bind ? b : b; c(3); return c(4, 5); })()", [[1, 2, 3], [1, 2, 4, 5]]),
+    ("(function(){ var a = [5, 6]; h.apply(null, a); h.apply(null, a); return a.length; })()", [[5, 6], [5, 6]]),
+    ("(function(){ h.call(null, 1); h.call(null, 2, 3); return h.call(null); })()", [[1], [2, 3], []]),
+    ("(function(){ var o = {m: h}; o.m(1); o.m(2); return o.m(); })()", [[1], [2], []]),
+    ("(function(){ var a = [7]; h(a[0], a.length); a.push(8); return h(a[0], a.length); })()", [[7, 1], [7, 2]]),
+    ("[1, 2].forEach(function(x){ h(x, x * 2); })", [[1, 2], [2, 4]]),
+    ("(function(){ var fs = [h, h.bind(null, 9)]; fs[0](1); fs[1](2); return fs[0](3); })()", [[1], [9, 2], [3]]),
+    ("(function(){ var b = h.bind(null, 'x'); [1, 2].forEach(function(v){ b(v); }); return 0; })()", [["x", 1], ["x", 2]]),
+]
+
+
+def repeat_task(task):
+    m = engine.load()
+    out = []
+    for expr, expect in task:
+        calls = []
+
+        def h(*a):
+            calls.append([x if isinstance(x, (int, float, str, bool)) else "<obj>" for x in a])
+            return len(calls)
+
+        ctx = m.Context(time_limit=10)
+        ctx.set("h", h)
+        res = guarded(lambda: ctx.eval(expr))
+        out.append((expr, expect, res, calls))
+    return out
+
+
 def interleave_task(seeds):
     """Stateful: set / get / eval(read) / eval(assign literal) / eval(mutate) on one context vs a dict model."""
     m = engine.load()
@@ -653,6 +685,20 @@ def main(chk):
                 chk.violation("callback|return-value-changed|%s" % form, case, show(exp), show(got), sub="callback")
             elif start == 0:
                 chk.sample({"sub": "callback", "expr": expr, "script_saw": show(got)}, cls="cb", per_class=4)
+    # 4c: the same callable reached repeatedly (bind/call/apply/method): exact argument vectors, call by call
+    res = pool.run(repeat_task, pool.chunks(REPEAT_FORMS, 3), timeout=300)
+    for rb in res:
+        if isinstance(rb, (pool.HANG, pool.CRASH)):
+            chk.violation("repeat|%r" % rb, {"sub": "repeat"}, None, repr(rb), sub="repeat")
+            continue
+        for expr, expect, r, calls in rb:
+            chk.count()
+            chk.nontrivial("rep|" + expr)
+            st, got = r
+            if st != "ok":
+                chk.violation("repeat|raises", {"sub": "repeat", "expr": expr}, "runs", got, sub="repeat")
+            elif not neq(calls, expect):
+                chk.violation("repeat|argument-vectors", {"sub": "repeat", "expr": expr}, expect, calls, sub="repeat")
     # 5: interleavings
     seeds = [core.shard_seed(chk.seed, "C11", "inter", i) % (2 ** 31) for i in range(300 if quick else 6000)]
     batches = pool.chunks(seeds, 20)
